@@ -46,7 +46,7 @@ from ..par import pmap
 from ..tlc import SPEC_DIR, run_tlc
 
 PID = "C18"
-CAGRAD_EXPS = (0, -8, 10, 0)        # 2^e J with s >= 10 norm_eps decided exactly (agg_c18_cagrad.scale_is_above_norm_eps)
+CAGRAD_EXPS = (0, -8, 10)        # 2^e J with s >= 10 norm_eps decided exactly (agg_c18_cagrad.scale_is_above_norm_eps)
 TLC_WORKERS = 4
 PARALLEL_TLC = 4
 
@@ -74,7 +74,7 @@ def _strip(ep: dict, keys: tuple) -> dict:
 # ------------------------------------------------------------------------------------------------
 # model-check jobs
 
-def mc_jobs(ctx: Ctx, m4_file: str) -> list[dict]:
+def mc_jobs(ctx: Ctx, m4_file: str, fw_file: str) -> list[dict]:
     quick = ctx.tier == "quick"
     jobs = []
     pc_base = (SPEC_DIR / "MC_PCGrad_quick.cfg").read_text()
@@ -102,6 +102,9 @@ def mc_jobs(ctx: Ctx, m4_file: str) -> list[dict]:
     jobs.append({"name": "fw_m2_k3", "module": "FrankWolfe", "part": "mgda",
                  "cfg": _drop(fw_safety, "INVARIANT FinalsAgree").replace("Ms = {1, 2, 3}", "Ms = {2}")
                  .replace("E = 1", "E = 2" if quick else "E = 3").replace("K = 2", "K = 3")})
+    # seeded sample with larger entries: as many of the 3 iterations as TLC's integers allow (CanStep)
+    jobs.append({"name": "fw_sample_k3", "module": "FrankWolfe", "part": "mgda", "env": {"MATRIX_FILE": fw_file},
+                 "cfg": fw_safety.replace("UseFile = FALSE", "UseFile = TRUE").replace("K = 2", "K = 3")})
     if not quick:
         jobs.append({"name": "fw_m3_e2_k2", "module": "FrankWolfe", "part": "mgda",
                      "cfg": fw_safety.replace("Ms = {1, 2, 3}", "Ms = {3}").replace("E = 1", "E = 2")})
@@ -300,15 +303,28 @@ def mgda_groups(scns: list[dict]) -> list[tuple]:
     for s in scns:
         k = (jkey(s["J"]), s["K"], tuple(s["eps"]))
         g = groups.setdefault(k, {"J": s["J"], "K": s["K"], "eps": s["eps"], "exps": sorted(s["exps"]), "cands": [],
-                                  "ties": 0, "interior": False, "mean2": s["mean2"], "closed": s["closed"]})
+                                  "ties": 0, "interior": False, "mean2": s["mean2"], "closed": s["closed"],
+                                  "iters": set(), "moved_after_vertex": False})
         g["cands"].append(s["vec"])
+        g["iters"].add(s["iters"] if s["eps"][0] == 0 else s["K"])
         g["ties"] = max(g["ties"], s["ties"])
         g["interior"] = g["interior"] or s["last"] == "interior"
-    return list(groups.values())
+    out = []
+    for g in groups.values():
+        g["iters"] = sorted(g["iters"])
+        out.append(g)
+    return out
 
 
 def mgda_replay(ctx: Ctx, scns: list[dict]) -> None:
     groups = mgda_groups(scns)
+    # epsilon = 0: the model says after how many iterations its state is exact (K, or fewer when the integers of
+    # a sampled instance did not allow more); branches of a tie that stop at different depths are not replayable
+    mixed = [g for g in groups if len(g["iters"]) != 1]
+    ctx.count("mgda_groups_skipped_mixed_depth", len(mixed))
+    groups = [g for g in groups if len(g["iters"]) == 1]
+    for g in groups:
+        g["K"] = g["iters"][0]
     res = pmap(MG.replay_group, [(g["J"], g["K"], g["eps"], g["exps"], g["cands"], None) for g in groups], chunksize=32)
     for g, r in zip(groups, res):
         ctx.evaluations += r["runs"]
@@ -332,8 +348,8 @@ def mgda_replay(ctx: Ctx, scns: list[dict]) -> None:
         if k not in seen:
             seen.add(k)
             items.append((g["J"], g["exps"], g["mean2"], g["closed"]))
-    if ctx.tier == "quick":
-        items = items[ctx.seed % 2:: 2]
+    if ctx.tier == "quick":          # every other instance, one scale exponent each (rotating)
+        items = [(J, [exps[(i + ctx.seed) % len(exps)]], m2, cl) for i, (J, exps, m2, cl) in enumerate(items)][ctx.seed % 2:: 2]
     res = pmap(MG.default_predicates, items, chunksize=32)
     for it, r in zip(items, res):
         ctx.evaluations += r["runs"]
@@ -384,10 +400,12 @@ def cagrad_items(ctx: Ctx, infos: list[dict]) -> list[tuple]:
     items = []
     for i, info in enumerate(infos):
         cs = sorted(info["cs"], key=lambda p: Fraction(*p))
-        if ctx.tier == "quick":          # c = 0 and one positive c (rotating) per instance
-            pos = [c for c in cs if c[0] != 0]
-            cs = ([[0, 1]] if (i + ctx.seed) % 2 == 0 else []) + [pos[(i + ctx.seed) % len(pos)]]
-        items.append((info, cs, CAGRAD_EXPS[(i + ctx.seed) % len(CAGRAD_EXPS)]))
+        if ctx.tier == "quick":          # every other instance, one c each (rotating through all four values)
+            if (i + ctx.seed) % 2:
+                continue
+            cs = [cs[((i + ctx.seed) // 2) % len(cs)]]
+        items.append((info, cs, CAGRAD_EXPS[((i + ctx.seed) // 2) % len(CAGRAD_EXPS) if ctx.tier == "quick"
+                                            else (i + ctx.seed) % len(CAGRAD_EXPS)]))
     return items
 
 
@@ -544,12 +562,18 @@ def run(ctx: Ctx, replay: str | None) -> None:
     def lap(name):
         phases[name] = round(time.time() - t0[0], 2)
         t0[0] = time.time()
-    m4 = PC.sample_m4(ctx.seed, 4 if quick else 40)
+    # development override (never used by MANIFEST commands): VERIF_C18_PARTS=pcgrad,mgda restricts the run
+    parts = set(os.environ.get("VERIF_C18_PARTS", "pcgrad,graddrop,mgda,cagrad,random").split(","))
+    m4 = PC.sample_m4(ctx.seed, 3 if quick else 40)
+    fw_sample = MG.sample_matrices(ctx.seed, 300 if quick else 3000)
     with tempfile.TemporaryDirectory(prefix="verif_c18_") as d:
-        m4_file = os.path.join(d, "m4.json")
+        m4_file, fw_file = os.path.join(d, "m4.json"), os.path.join(d, "fw.json")
         with open(m4_file, "w") as f:
             json.dump(m4, f)
-        jobs = mc_jobs(ctx, m4_file)
+        with open(fw_file, "w") as f:
+            json.dump(fw_sample, f)
+        jobs = [j for j in mc_jobs(ctx, m4_file, fw_file)
+                if j["part"] in parts or (j["part"] == "cagrad" and "random" in parts)]
         with ThreadPoolExecutor(PARALLEL_TLC) as ex:
             results = list(ex.map(run_job, jobs))
     lap("model_checking")
@@ -565,44 +589,70 @@ def run(ctx: Ctx, replay: str | None) -> None:
             raise MachineryError(f"{job['name']}: no scenario exported")
         ctx.extra.setdefault("scenarios_exported", {})[job["name"]] = len(got)
         scns[job["part"]] += got
-    # every terminal behaviour of the exhaustive PCGrad family must have been exported: 9 + 81 + 729 * 8
-    n123 = ctx.extra["scenarios_exported"]["pcgrad_m123"]
-    if n123 != 9 + 81 + 729 * 8:
-        raise MachineryError(f"PCGrad m<=3 family: {n123} scenarios exported, expected {9 + 81 + 729 * 8}")
-    if ctx.extra["scenarios_exported"]["pcgrad_m4_sample"] != len(m4) * 6 ** 4:
-        raise MachineryError("PCGrad m=4 sample: not every order combination was exported")
 
-    pcgrad_replay(ctx, scns["pcgrad"])
-    lap("pcgrad_replay")
-    graddrop_replay(ctx, scns["graddrop"])
-    lap("graddrop_replay")
-    mgda_replay(ctx, scns["mgda"])
-    lap("mgda_replay")
-    mgda_real(ctx, 150 if quick else 1500)
-    lap("mgda_real")
-    cagrad_check(ctx, scns["cagrad"])
-    lap("cagrad_check")
+    # vacuity: the exported families must exercise every branch the clauses talk about
+    vac = {}
+    if "pcgrad" in parts:
+        # every terminal behaviour of the exhaustive PCGrad family must have been exported: 9 + 81 + 729 * 8
+        n123 = ctx.extra["scenarios_exported"]["pcgrad_m123"]
+        if n123 != 9 + 81 + 729 * 8:
+            raise MachineryError(f"PCGrad m<=3 family: {n123} scenarios exported, expected {9 + 81 + 729 * 8}")
+        if ctx.extra["scenarios_exported"]["pcgrad_m4_sample"] != len(m4) * 6 ** 4:
+            raise MachineryError("PCGrad m=4 sample: not every order combination was exported")
+        vac["pcgrad scenario with conflicting rows"] = any(x["conflict"] for x in scns["pcgrad"])
+        vac["pcgrad scenario without conflict"] = any(not x["conflict"] for x in scns["pcgrad"])
+        vac["pcgrad matrix whose result depends on the orders"] = \
+            any(len(c) > 1 for c in pcgrad_candidates(scns["pcgrad"]).values())
+    if "graddrop" in parts:
+        vac["graddrop choices pos/neg/none"] = {"pos", "neg", "none"} <= {c for x in scns["graddrop"] for c in x["choice"]}
+    if "mgda" in parts:
+        vac["frank-wolfe branches vertex/stay/interior"] = {"vertex", "stay", "interior"} <= {x["last"] for x in scns["mgda"]}
+        vac["frank-wolfe scenario with 3 exact iterations"] = any(x["iters"] == 3 for x in scns["mgda"])
+    if scns["cagrad"]:
+        vac["cagrad stationary and non-stationary instances"] = {True, False} <= {x["stationary"] for x in scns["cagrad"]}
+        vac["cagrad symmetric non-stationary instance"] = any(x["symmetric"] and not x["stationary"] for x in scns["cagrad"])
+    missing = [k for k, ok in vac.items() if not ok]
+    if missing:
+        raise MachineryError(f"vacuous coverage: no {missing}")
+
+    if "pcgrad" in parts:
+        pcgrad_replay(ctx, scns["pcgrad"])
+        lap("pcgrad_replay")
+    if "graddrop" in parts:
+        graddrop_replay(ctx, scns["graddrop"])
+        lap("graddrop_replay")
+    if "mgda" in parts:
+        mgda_replay(ctx, scns["mgda"])
+        lap("mgda_replay")
+        mgda_real(ctx, 150 if quick else 1500)
+        lap("mgda_real")
+    if "cagrad" in parts:
+        cagrad_check(ctx, scns["cagrad"])
+        lap("cagrad_check")
 
     # code -> spec
-    pc_eps = PC.random_episodes(ctx.seed, 160 if quick else 1200, 44 if quick else 300)
-    gd_eps = GD.random_episodes(ctx.seed, 300 if quick else 3000)
-    mg_eps = MG.random_episodes(ctx.seed, 120 if quick else 800)
-    rnd_mats = [s["J"] for s in scns["cagrad"]][:: (9 if quick else 3)]
-    rng = random.Random(ctx.seed)
-    for mm in (1, 2, 5, 8, 16, 32):
-        nn = rng.choice([1, 3, 7])
-        rnd_mats.append([[rng.randint(-9, 9) for _ in range(nn)] for _ in range(mm)])
-    rw_eps = CA.random_observations(ctx.seed, rnd_mats, 12 if quick else 40)
+    eps: dict[str, list] = {}
+    if "pcgrad" in parts:
+        eps["pcgrad"] = PC.random_episodes(ctx.seed, 160 if quick else 1200, 44 if quick else 300)
+    if "graddrop" in parts:
+        eps["graddrop"] = GD.random_episodes(ctx.seed, 300 if quick else 3000)
+    if "mgda" in parts:
+        eps["mgda"] = MG.random_episodes(ctx.seed, 120 if quick else 800)
+    if "random" in parts:
+        rnd_mats = [s["J"] for s in scns["cagrad"]][:: (9 if quick else 3)]
+        rng = random.Random(ctx.seed)
+        for mm in (1, 2, 5, 8, 16, 32):
+            nn = rng.choice([1, 3, 7])
+            rnd_mats.append([[rng.randint(-9, 9) for _ in range(nn)] for _ in range(mm)])
+        eps["random"] = CA.random_observations(ctx.seed, rnd_mats, 12 if quick else 40)
     lap("episode_generation")
     with ThreadPoolExecutor(4) as ex:
-        futs = {k: ex.submit(trace_job, k, e) for k, e in
-                (("pcgrad", pc_eps), ("graddrop", gd_eps), ("mgda", mg_eps), ("random", rw_eps))}
+        futs = {k: ex.submit(trace_job, k, e) for k, e in eps.items()}
         ran = {k: f.result() for k, f in futs.items()}
     lap("trace_validation")
-    pcgrad_trace(ctx, pc_eps, ran["pcgrad"])
-    graddrop_trace(ctx, gd_eps, ran["graddrop"])
-    mgda_trace(ctx, mg_eps, ran["mgda"])
-    random_check(ctx, rw_eps, ran["random"])
+    judge = {"pcgrad": pcgrad_trace, "graddrop": graddrop_trace, "mgda": mgda_trace, "random": random_check}
+    for k in eps:
+        judge[k](ctx, eps[k], ran[k])
 
     ctx.exhaustive = False
     ctx.extra["exhaustive_parts"] = {
